@@ -13,6 +13,8 @@ Domain : histories of <= 25 ops over <= 2 proxies (each its own connection) and 
               ["call", p]   an unrelated normal call on proxy p (makes the recorded sequence number of its streams diverge:
                             close() then takes the "temporary second proxy" path)
               ["hk"]        daemon._housekeeping() from the harness thread   ["adv", dt]   advance the virtual clock
+              ["hkn", s]    next() on stream s from a helper thread; while the server-side generator is producing that item the
+                            harness runs daemon._housekeeping() (thread server; s >= 4: the stream's lifetime has just run out)
          entity references are indices modulo the population: a stream reference 0..5 is taken modulo the LIVE population
          (client handle open, stream not known to be forgotten), 6.. modulo all streams opened so far (so ended streams are
          poked as well); an op without a target (no stream yet, fifth open) is skipped, so every op list is executable.
@@ -54,7 +56,7 @@ ASSUMPTIONS = [
     "'an error' for a forgotten stream is any exception, including the StopIteration a closed/exhausted client iterator raises locally",
     "close()/__del__ on an iterator whose proxy is released sends nothing (there is no connection): the server side then ends by linger expiry, which the model follows",
     "on thread servers the harness holds daemon.housekeeper_lock while one op is in flight, so the daemon's background housekeeping runs between ops only: "
-    "races between housekeeping and request handling/disconnect handling inside the daemon are not explored",
+    "the only overlap of housekeeping with request handling that is explored is the 'hkn' op (thread server): housekeeping called while a generator is producing its next item (the generator waits on an event of the harness), optionally with the clock moved beyond that stream's lifetime first",
     "the harness waits for the server side of a released connection to be closed and for a oneway close_stream to have run before it looks at the stream table "
     "(60 s ceiling as hang guard only)",
     "exceptions raised by the generator are compared by class only (content is C07's business); CommunicationError subclasses are not used (open C07 finding)",
@@ -73,6 +75,7 @@ SERIALIZERS = ["serpent", "marshal", "json", "msgpack"]
 PLANS = {}              # token -> normalised plan, written by the harness before make(token) is called
 CLOSE_CALLS = {}        # streamId -> number of close_stream invocations that have completed on the server
 CLOSE_LOCK = threading.Lock()
+HOLD = {}               # token -> (item index, Event "the generator is producing that item", Event "go on")
 
 
 class _Stop(Exception):
@@ -136,10 +139,16 @@ def _classes():
             self.i += 1
             return self.items[self.i - 1]
 
-    def generator(items, raise_at, exc):
+    def generator(items, raise_at, exc, token=None):
         for i, x in enumerate(items):
             if i == raise_at:
                 raise exc("planned failure at %d" % i)
+            hold = HOLD.get(token)
+            if hold is not None and hold[0] == i:
+                # the harness wants this item to be "in production" for a while (housekeeping runs meanwhile)
+                HOLD.pop(token, None)
+                hold[1].set()
+                hold[2].wait(CEILING)
             yield x
         if raise_at == len(items):
             raise exc("planned failure at %d" % raise_at)
@@ -153,7 +162,7 @@ def _classes():
                 return iter(list(items))
             if kind == "custom":
                 return CustomIter(list(items), raise_at, exc)
-            return generator(list(items), raise_at, exc)
+            return generator(list(items), raise_at, exc, token)
 
         def ping(self, x):
             return x
@@ -373,6 +382,12 @@ class _Run(object):
             desc = "%s #%d" % (name, n)
             if name == "hk":
                 self.op_hk()
+            elif name == "hkn":
+                self.op_hkn(int(op[1]))
+                if self.V:
+                    return
+                with self.guard:
+                    self.settle()
             elif name == "adv":
                 self.clock.now += int(op[1])
             else:
@@ -507,13 +522,65 @@ class _Run(object):
         s = self.streams[si % len(self.streams)]
         return None if s.handle == "dropped" else s
 
-    def op_next(self, si):
-        s = self.pick(si)
+    def op_hkn(self, si):
+        """housekeeping runs WHILE the server is producing the next item of a stream (thread server: the housekeeper is a thread of
+        its own).  si >= 4: the clock is first moved beyond the stream's lifetime, so housekeeping finds the very stream expired
+        whose generator is executing.  Whatever housekeeping decides, it must not fail, and the item in production is delivered."""
+        s = self.pick(si % 6)
+        suitable = (self.servertype == "thread" and s is not None and s.kind == "gen" and s.handle == "open" and s.state == "live"
+                    and s.sid is not None and self.P[s.proxy]["conn"] is not None and self.expected(s)[0] == "item")
+        if not suitable:
+            with self.guard:
+                self.op_next(si % 6)
+            if not self.V:
+                self.op_hk()
+            return
+        if si >= 4 and self.LT > 0 and not self.expired_why(s):
+            self.clock.now = s.created + int(self.LT) + 1
+        ev_in, ev_go = threading.Event(), threading.Event()
+        HOLD[s.token] = (s.cursor, ev_in, ev_go)
+
+        def observe(s_):
+            box = []
+            prox = self.P[s_.proxy]["proxy"]
+
+            def client():
+                prox._pyroClaimOwnership()      # a proxy belongs to one thread at a time
+                box.append(self.observe_next(s_))
+            t = threading.Thread(target=client, name="c10-inflight-next", daemon=True)
+            t.start()
+            live.wait_for(lambda: ev_in.is_set() or not t.is_alive(), CEILING, step=0.0002)
+            try:
+                if ev_in.is_set():
+                    self.labels.add("housekeeping-during-next" + (":stream-expired" if self.expired_why(s_) else ""))
+                    try:
+                        self.D._housekeeping()
+                    except Exception as x:
+                        self.viol("housekeeping-raises:during-next", "housekeeping raised %r while the next item of stream %d (%s) was being produced "
+                                  "(in the daemon this ends the housekeeper thread: no stream expires any more)" % (x, s_.idx, s_.token))
+            finally:
+                HOLD.pop(s_.token, None)
+                ev_go.set()
+            t.join(CEILING)
+            if not box:
+                self.viol("hang:next", "next() on stream %d did not return" % s_.idx)
+                raise _Stop()
+            prox._pyroClaimOwnership()
+            return box[0]
+        self.op_next(si % 6, observe=observe, target=s)
+        if not self.V:
+            for o in self.streams:
+                why = self.expired_why(o)
+                if why:
+                    self.forget(o, why)
+
+    def op_next(self, si, observe=None, target=None):
+        s = target or self.pick(si)
         if s is None:
             return
         p = self.P[s.proxy]
         handle0 = s.handle
-        obs = self.observe_next(s)
+        obs = (observe or self.observe_next)(s)
         obs_txt = obs[0] if obs[0] != "error" else "error:" + obs[1].__name__
         if obs[0] == "stop":
             s.handle = "dead"           # the client iterator lets go of its proxy on StopIteration
@@ -660,9 +727,9 @@ def _table(**w):
 
 # generation-only macros (expanded into plain ops): lapse = adv+hk, bounce = disc+adv(small)+reco, leave = disc+adv+hk
 OPTABLES = {
-    "mixed": _table(next=41, adv=10, hk=8, disc=6, reco=8, open=5, call=6, close=4, drop=4, lapse=3, bounce=3, leave=2),
-    "nexty": _table(next=68, adv=3, hk=3, disc=2, reco=6, open=5, call=5, close=3, drop=3, bounce=2),
-    "clocky": _table(next=32, adv=12, hk=8, disc=6, reco=8, open=2, call=4, close=2, drop=2, lapse=9, bounce=8, leave=7),
+    "mixed": _table(next=37, hkn=4, adv=10, hk=8, disc=6, reco=8, open=5, call=6, close=4, drop=4, lapse=3, bounce=3, leave=2),
+    "nexty": _table(next=65, hkn=3, adv=3, hk=3, disc=2, reco=6, open=5, call=5, close=3, drop=3, bounce=2),
+    "clocky": _table(next=27, hkn=5, adv=12, hk=8, disc=6, reco=8, open=2, call=4, close=2, drop=2, lapse=9, bounce=8, leave=7),
 }
 
 SPECIAL = [None, True, False, 0.0, -0.0, float("nan"), float("inf"), 2**70, -2**63, "", "\x00", "é\U0010ffff", [], {},
